@@ -118,6 +118,11 @@ __start__:
         if (c == ctx.GSTUFF_STOP) 
         {
             // Срабатывает на стоп байт (может быть равен стартовому).
+            if (ctx.GSTUFF_START == ctx.GSTUFF_STOP && sline_empty(&line))
+            {
+                // Повторный стартовый. Ничего не делаем.
+                goto __continue__;
+            }
             goto __stop_handler__;
         }
     
